@@ -100,6 +100,17 @@ def idx_json(idx):
     return out
 
 
+YIELD = [None]  # preempt-mode scheduler's cooperative yield hook (None: tasks are atomic)
+
+
+def yield_point():
+    """A point INSIDE a fake's operation at which another in-flight task may run (preempt mode only):
+    between the read and the write-back of a read-modify-write store, for instance."""
+    f = YIELD[0]
+    if f is not None:
+        f()
+
+
 class SimLock:
     """Lock fake. Owner = the simulated task that acquired it."""
 
@@ -301,7 +312,8 @@ def _rebuild_source(a, grid, name):
 class SimTarget:
     """Array-like store target with a per-cell write counter."""
 
-    def __init__(self, shape, dtype, sentinel, name="tgt", lock=None):
+    def __init__(self, shape, dtype, sentinel, name="tgt", lock=None, rmw=None):
+        self.rmw = tuple(rmw) if rmw else None  # storage block shape: writes are read-modify-write of whole blocks
         self.shape = tuple(shape)
         self.dtype = np.dtype(dtype)
         self.ndim = len(shape)
@@ -337,7 +349,23 @@ class SimTarget:
         if self.fail_at is not None and k == self.fail_at:
             self.faults_fired += 1
             raise InjectedIOError(f"injected write fault at write {k} of {self.name}")
-        self._a[idx] = value
+        if self.rmw and isinstance(idx, tuple) and len(idx) == len(self.shape) and all(
+                isinstance(i, slice) and i.step in (None, 1) for i in idx) and not reason:
+            # a compressed-chunk store (h5py/zarr-like): read the covering storage blocks, patch, write them
+            # back.  Two writers inside this window on the same block lose one update unless a lock that
+            # BOTH hold excludes them.
+            bb, rel = [], []
+            for i, n, b in zip(idx, self.shape, self.rmw):
+                a0, a1, _ = i.indices(n)
+                lo, hi = (a0 // b) * b, min(-(-a1 // b) * b, n)
+                bb.append(slice(lo, max(hi, lo)))
+                rel.append(slice(a0 - lo, a1 - lo))
+            tmp = self._a[tuple(bb)].copy()
+            yield_point()
+            tmp[tuple(rel)] = value
+            self._a[tuple(bb)] = tmp
+        else:
+            self._a[idx] = value
         self.count[idx] += 1
 
     def __getitem__(self, idx):
